@@ -214,7 +214,7 @@ def c_snd(n):
     return "SNone" if n < 0 else ("SNoSender" if n == 0 else "(SPid %d)" % n)
 
 
-def c_hop(o, v6parse):
+def c_hop(o, v6parse, row=None):
     k = o["K"]
     e = c_env(o)
     if k == "local":
@@ -227,7 +227,11 @@ def c_hop(o, v6parse):
     if k == "todl":
         return "HOp (OToDL %s %d %d %d)" % (e, o["Snd"], o["Rcv"], o["Mid"])
     if k == "ask":
-        return "HAsk %s %s %s %d %d" % (e, c_bool(o["Accepted"]), "SNoSender" if o["Api"] else c_snd(o["Snd"]), MUT if o["Accepted"] else GAT, o["Mid"])
+        args = "%s %s %s %d %d" % (e, c_bool(o["Accepted"]), "SNoSender" if o["Api"] else c_snd(o["Snd"]), MUT if o["Accepted"] else GAT, o["Mid"])
+        # whether Ask went on to wait for its timer after a refused enqueue is its control flow, observed on the implementation
+        if row is not None and row.get("AskErr") != "timeout":
+            return "HOp (OAskSend %s)" % args
+        return "HAsk " + args
     if k == "remote":
         t = {"missing": "TMissing", "removed": "TRemoved", "notrunning": "TNotRunning", "dispfail": "TDispFail",
              "ok": "(TOk %s)" % c_bool(not o["Shut"]), "okfull": "(TOk false)"}[o["Tree"]]
@@ -292,6 +296,8 @@ def oracle_sequence(ctx, sid, ops, rows, end, table, stats, report):
                             askpid=(-1 if o["Api"] else o["Snd"])))
             if not o["Accepted"] and o["Dl"]:
                 dup_ok[o["Mid"]] += 1
+            if o["Accepted"] and r.get("AskErr") != "timeout":
+                report("deadletter:harness-op-error", "sequence %d step %d: Ask to the mute actor returned %r instead of timing out" % (sid, i, r.get("AskErr")), {"seq": sid, "step": i})
         elif k == "remote":
             w = o["W"]
             delivered = w["Payload"] and w["Meta"] and o["Tree"] == "ok" and not o["Shut"]
@@ -585,24 +591,27 @@ def run(ctx):
                 for p in (r.get("Pub") or []):
                     to = ask_fix.get((sid, i, p["Mid"]), p["To"]) if o["K"] == "ask" else p["To"]
                     letters.append("(%d,%d,%d)" % (max(p["Mid"], 0), max(p["From"], 0) if p["From"] >= 0 else 9999, to if to >= 0 else 9999))
-                # comparison mode of the letters: 0 exact order, 1 as a multiset (map iteration order), 2 not compared
+                # comparison mode: 0 letters in exact order, 1 letters as a multiset (map iteration order), 2 letters not compared, 3 per-receiver count not compared
                 # (re-publication after a PID.Ask dead letter with the wrong receiver key: reported by the oracle as SIG_ASKRCV)
                 mode = 0
                 if o["K"] == "publishall":
                     mode = 2 if any(k[0] == sid and k[1] < i for k in ask_fix) else 1
+                if o["K"] == "count" and o["Rcv"] in (MUT, GAT, SA, SB) and any(k[0] == sid and k[1] < i for k in ask_fix):
+                    mode = 3  # the per-receiver counter was bumped under the asker's key (SIG_ASKRCV, reported by the oracle)
                 exp_rows.append("(%d,(%d,%d,%d,[%s]))" % (mode, r["Count"], r["Qlen"], r["PerAddr"] if o["K"] == "count" else 0, ";".join(letters)))
                 n_rows += 1
-            case_terms.append("(%d, [%s], [%s])" % (sid, "; ".join(c_hop(o, v6) for o in ops), "; ".join(exp_rows)))
-        body = """From Coq Require Import List Bool Arith PeanoNat. Import ListNotations.
+            case_terms.append("(%d, [%s], [%s])" % (sid, "; ".join(c_hop(o, v6, r) for o, r in zip(ops, rows)), "; ".join(exp_rows)))
+        prelude = """From Coq Require Import List Bool Arith PeanoNat. Import ListNotations.
 From GV Require Import C18.Model.
 Definition leqb (a b : letter) : bool := match a, b with (m1,f1,t1), (m2,f2,t2) => Nat.eqb m1 m2 && Nat.eqb f1 f2 && Nat.eqb t1 t2 end.
 Fixpoint lseq (a b : list letter) : bool := match a, b with [] , [] => true | x :: r, y :: s => leqb x y && lseq r s | _, _ => false end.
 Definition cntl (x : letter) (l : list letter) : nat := length (filter (leqb x) l).
 Definition lmeq (a b : list letter) : bool := Nat.eqb (length a) (length b) && forallb (fun x => Nat.eqb (cntl x a) (cntl x b)) a.
-Definition row := (nat * nat * nat * list letter)%%type.
+Definition row := (nat * nat * nat * list letter)%type.
 Definition row_eq (mode : nat) (a b : row) : bool :=
   match a, b with (c1,q1,p1,l1), (c2,q2,p2,l2) =>
-    Nat.eqb c1 c2 && Nat.eqb q1 q2 && Nat.eqb p1 p2 && (match mode with 0 => lseq l1 l2 | 1 => lmeq l1 l2 | _ => true end) end.
+    Nat.eqb c1 c2 && Nat.eqb q1 q2 && (match mode with 3 => true | _ => Nat.eqb p1 p2 end)
+    && (match mode with 0 => lseq l1 l2 | 1 => lmeq l1 l2 | _ => true end) end.
 Fixpoint first_diff (i : nat) (m : list row) (e : list (nat * row)) : option (nat * row) :=
   match m, e with
   | [], [] => None
@@ -610,35 +619,57 @@ Fixpoint first_diff (i : nat) (m : list row) (e : list (nat * row)) : option (na
   | x :: _, [] => Some (i, x)
   | [], _ :: _ => Some (i, (0,0,0,[]))
   end.
-Definition cases : list (nat * list hop * list (nat * row)) := [
+"""
+        ctx.log("evaluating the Coq model on %d steps" % n_rows)
+        chunk = 60
+        chunks = [case_terms[k:k + chunk] for k in range(0, len(case_terms), chunk)]
+
+        def eval_chunk(arg):
+            k, terms = arg
+            body = prelude + """Definition cases : list (nat * list hop * list (nat * row)) := [
 %s
 ].
 Definition res := map (fun c => match c with (id, hs, e) => (id, first_diff 0 (htrace %d hs init) e) end) cases.
 Definition bad := filter (fun r => match snd r with Some _ => true | None => false end) res.
 Definition summary := (length res, length bad, firstn 3 bad).
 Eval vm_compute in summary.
-""" % (";\n".join(case_terms), cap)
-        ctx.log("evaluating the Coq model on %d steps" % n_rows)
-        rc2, o2 = ctx.coq_eval("cases_C18", body)
+""" % (";\n".join(terms), cap)
+            return ctx.coq_eval("cases_C18_%d" % k, body)
+
+        from concurrent.futures import ThreadPoolExecutor
+        with ThreadPoolExecutor(max_workers=4) as ex:
+            results = list(ex.map(eval_chunk, list(enumerate(chunks))))
         ctx.log("model evaluated")
-        flat = " ".join(o2.split())
-        m_ = re.search(r"= \((\d+)(?:%nat)?, (\d+)(?:%nat)?, (\[.*\])\)", flat)
-        if rc2 != 0 or not m_:
-            ctx.tie_broken("C18/Model.v evaluation (cases.v did not evaluate)", o2)
-        else:
-            mism = int(m_.group(2))
-            if mism:
-                detail = {"sequences_with_mismatch": mism, "first (seq, Some (step, model row = (counter, queue length, per-receiver count, letters published)))": m_.group(3)}
-                for n_, mm in enumerate(re.finditer(r"\((\d+), Some \((\d+),", m_.group(3))):
-                    sid, st = int(mm.group(1)), int(mm.group(2))
-                    detail["op_%d" % n_] = seqs[sid][st]
-                    detail["implementation_row_%d" % n_] = steps[sid][st]
-                # a concrete failing input reported by the oracle explains the divergence; otherwise the tie itself is reported
-                generic = [s for s in reported if s.startswith("deadletter:")]
-                if generic:
-                    ctx.notes.append("model/implementation divergence at %s; concrete failing input reported by the oracle" % m_.group(3)[:200])
-                else:
-                    ctx.tie_broken("C18 model vs implementation (per-step counter / queue length / published letters)", detail)
+        mism = 0
+        n_eval = 0
+        bad_txt = []
+        for (rc2, o2) in results:
+            flat = " ".join(o2.split())
+            m_ = re.search(r"= \((\d+)(?:%nat)?, (\d+)(?:%nat)?, (\[.*\])\)", flat)
+            if rc2 != 0 or not m_:
+                ctx.tie_broken("C18/Model.v evaluation (cases.v did not evaluate)", o2)
+                mism = None
+                break
+            n_eval += int(m_.group(1))
+            mism += int(m_.group(2))
+            if int(m_.group(2)):
+                bad_txt.append(m_.group(3))
+        if mism is not None and n_eval != len(seqs):
+            ctx.tie_broken("C18/Model.v evaluation (not every sequence was evaluated)", {"evaluated": n_eval, "sequences": len(seqs)})
+        if mism:
+            txt = " ".join(bad_txt)
+            detail = {"sequences_with_mismatch": mism, "first (seq, Some (step, model row = (counter, queue length, per-receiver count, letters published)))": txt[:3000]}
+            for n_, mm in enumerate(list(re.finditer(r"\((\d+), Some \((\d+),", txt))[:3]):
+                sid, st = int(mm.group(1)), int(mm.group(2))
+                detail["op_%d" % n_] = seqs[sid][st]
+                detail["implementation_row_%d" % n_] = steps[sid][st]
+                detail["ops_prefix_%d" % n_] = seqs[sid][:st + 1] if st < 80 else "(long; see c18_in.jsonl sequence %d)" % sid
+            # a concrete failing input reported by the oracle explains the divergence; otherwise the tie itself is reported
+            generic = [s_ for s_ in reported if s_.startswith("deadletter:")]
+            if generic:
+                ctx.notes.append("model/implementation divergence at %s; concrete failing input reported by the oracle" % txt[:200])
+            else:
+                ctx.tie_broken("C18 model vs implementation (per-step counter / queue length / published letters)", detail)
 
     for sig, (what, replay) in first.items():
         n = reported[sig]
